@@ -79,6 +79,13 @@ def f_r2_init(schema: Schema, rep: Report):
     via = [n.id for n in cfg.nodes_calling(self_call("validate_args"))]
     ok = bool(via) and cfg.must_pass_through([cfg.exit.id], via)
     rep.check("F-R2", "__init__:validate_args", ok, "an instance can be returned without self.validate_args(*args, **kwargs) having run" if not ok else "", f"{rel}:{fn.lineno}")
+    # what is validated is what is applied: neither *args nor **kwargs is re-bound AFTER validate_args has seen them
+    # (keys folded to lower case, values normalised ...) - the constraints would have been checked on other names / values
+    vcalls = [c_ for c_ in ast.walk(fn) if isinstance(c_, ast.Call) and isinstance(c_.func, ast.Attribute) and c_.func.attr == "validate_args"]
+    if vcalls:
+        vline = min(c_.lineno for c_ in vcalls)
+        late = [s_ for s_ in ast.walk(fn) if isinstance(s_, (ast.Assign, ast.AnnAssign, ast.AugAssign)) and s_.lineno > vline and any(isinstance(t_, ast.Name) and t_.id in (va, kw) for t_ in (s_.targets if isinstance(s_, ast.Assign) else [s_.target]))]
+        rep.check("F-R2", "__init__:validated-arguments-are-the-applied-ones", not late, f"`{text(late[0])[:60]}` re-binds the arguments after validate_args() has judged them: the mutex / group constraints were evaluated on names or values that are not the ones applied (CURRENCY=.., ORIGCURRENCY=.. in upper case count as absent, then both are set)" if late else "", f"{rel}:{(late[0] if late else fn).lineno}")
     via = [n.id for n in cfg.nodes_calling(self_call("_apply_args", True, False))]
     ok = bool(via) and cfg.must_pass_through([cfg.exit.id], via)
     rep.check("F-R2", "__init__:_apply_args", ok, "an instance can be returned without self._apply_args(*args) having run" if not ok else "", f"{rel}:{fn.lineno}")
